@@ -162,6 +162,12 @@ func (e *renv) update(ep *ibctesting.Endpoint) {
 func memKey(c *ibctesting.TestChain) storetypes.StoreKey { return c.GetSimApp().GetMemKey(ibcmock.MemStoreKey) }
 func ibcKey(c *ibctesting.TestChain) storetypes.StoreKey { return c.GetSimApp().GetKey(exported.StoreKey) }
 
+// rawAck is a successful acknowledgement whose bytes are not a channeltypes.Acknowledgement
+type rawAck []byte
+
+func (a rawAck) Success() bool           { return true }
+func (a rawAck) Acknowledgement() []byte { return a }
+
 func wroteKeyV1(port, ch string, seq uint64) string { return fmt.Sprintf("v1/%s/%s/%d", port, ch, seq) }
 func wroteKeyV2(client string, seq uint64) string   { return fmt.Sprintf("v2/%s/%d", client, seq) }
 
@@ -177,6 +183,9 @@ func (e *renv) install(c *ibctesting.TestChain) {
 		var ack exported.Acknowledgement
 		if bytes.HasPrefix(p.Data, []byte("fail")) {
 			ack = channeltypes.NewErrorAcknowledgement(errors.New("refused"))
+		} else if bytes.HasPrefix(p.Data, []byte("raw")) {
+			// an application-defined acknowledgement that is not the standard JSON envelope (IBC allows any bytes)
+			ack = rawAck(append([]byte{0x01, 0xfe}, p.Data...))
 		} else {
 			ack = channeltypes.NewResultAcknowledgement(append([]byte("ack:"), p.Data...))
 		}
